@@ -51,7 +51,8 @@ def replay(chk, vecs, par=8):
 
 def key_of(o, why):
     st = " ".join("%s%d:%d" % (s["op"], s["p"], s["n"]) for s in o["vec"]["steps"])
-    return "%s%s:np%d:%s:%s" % (o["vec"]["sink"], "+racing" if o["vec"].get("async") else "", o["vec"]["np"], st, why)
+    return "%s%s%s:np%d:%s:%s" % (o["vec"]["sink"], "+racing" if o["vec"].get("async") else "",
+                                    ("+free/gomaxprocs=%d" % o["vec"].get("gmp", 0)) if o["vec"].get("free") else "", o["vec"]["np"], st, why)
 
 
 def judge_runs(chk, obs):
@@ -147,6 +148,16 @@ def run(chk, replay_rec):
     add(s2, "mem", fa, async_=True); add(l2, "dxf", fa / 2, async_=True)
     add(s1, "tmemb", 1, async_=True); add(l1, "lmemb", 1, async_=True)
     add(s2, "tmemb", fa, async_=True); add(l2, "lmemb", fa, async_=True)
+    # free-running single-producer runs (no gate): the writes of each schedule issued back to back by the rendering
+    # goroutine, also with GOMAXPROCS = 1 (the consumer goroutine may not have run at all before Close)
+    for s in s1:
+        for sink in ("mem", "stl", "3mf"):
+            for gmp in (0, 1):
+                vecs.append(dict(sink=sink, np=1, steps=s["steps"], free=True, gmp=gmp))
+    for s in l1:
+        for sink in ("dxf", "svg"):
+            for gmp in (0, 1):
+                vecs.append(dict(sink=sink, np=1, steps=s["steps"], free=True, gmp=gmp))
     obs = replay(chk, vecs)
     chk.traces += len(obs)
     if len(obs) != len(vecs):
@@ -187,7 +198,7 @@ def run(chk, replay_rec):
                 raise vlib.Inconclusive("rejected run did not reproduce: " + key_of(o, why))
             chk.violation(key_of(o, again[k]), "real pipeline run rejected: %s; written=%d delivered runs=%s count=%d" % (
                 again[k], o["written"], o["delivered"][:6], o["count"]),
-                dict(vector={x: o["vec"][x] for x in ("sink", "np", "steps", "async") if x in o["vec"]}, why=again[k]))
+                dict(vector={x: o["vec"][x] for x in ("sink", "np", "steps", "async", "free", "gmp") if x in o["vec"]}, why=again[k]))
         if not chk.violations and any("racing-writes failure" in n for n in chk.notes):
             raise vlib.Inconclusive(chk.notes[-1])
     if unreal > len(obs) // 50:
